@@ -472,7 +472,9 @@ func main() {
 			okv, es = 0, err.Error()
 		}
 		emit(event{"ev": "left", "node": 3, "ok": okv, "err": es})
-		time.Sleep(1000 * time.Millisecond)
+		// the leaving node stays up long enough for the partition groups it is in to commit its removal
+		// (a group of two cannot do that once it is gone)
+		time.Sleep(3500 * time.Millisecond)
 		c.kill()
 		observe(ps, "leave")
 		create(a, 1, 2)
